@@ -116,6 +116,8 @@ def case_features(case, objs=None) -> List[str]:
         f.add("comparison_objects_used_in_earlier_queries")
     if case.get("same_object_plain_and_negated"):
         f.add("same_object_plain_and_negated")
+    if case.get("one_comparison_object_twice"):
+        f.add("one_comparison_object_twice")
     if case.get("share_terms"):
         seen, rep = set(), False
         occ = [("truth", n[1]) for n in A.walk(c) if n[0] == "truth"] + [("value", t) for t in A.terms_of(c)] + \
